@@ -465,6 +465,28 @@ let op_kpkraw (args : string list) : string =
     Buffer.contents b
   | _ -> "BAD-ARGS"
 
+
+(* kpkeval <strong> <stm> <pawn> : 'W'/'D' for legal placements (per the spec's kpk_legal after the engine's
+   normalisation), '-' otherwise *)
+let op_kpkeval (args : string list) : string =
+  match args with
+  | [strong; stm; pawn] ->
+    let pawn = int_of_string pawn in
+    let b = Buffer.create 4096 in
+    let fv s = s lxor 56 in
+    for sk = 0 to 63 do
+      for wk = 0 to 63 do
+        let p =
+          if strong = "0" then
+            { M.k_btm = (stm = "1"); M.k_wk = n_of_int sk; M.k_wp = n_of_int pawn; M.k_bk = n_of_int wk }
+          else
+            { M.k_btm = (stm = "0"); M.k_wk = n_of_int (fv sk); M.k_wp = n_of_int (fv pawn); M.k_bk = n_of_int (fv wk) } in
+        Buffer.add_char b (if not (M.kpk_legal p) then '-' else if M.engine_W bb_word p then 'W' else 'D')
+      done
+    done;
+    Buffer.contents b
+  | _ -> "BAD-ARGS"
+
 (* kpksolve : solve the KPK game from the SPEC (least fixed point by iteration) and list the placements
    where the engine's table disagrees with the truth.  Used as the counterexample search of C12. *)
 let kpk_index (p : M.kpk) : int =
@@ -574,6 +596,7 @@ let dispatch (line : string) : string =
      | "g_key" -> run_key_game (rest_after line 1)
      | "pghash" -> op_pghash (rest_after line 1)
      | "kpkraw" -> op_kpkraw args
+     | "kpkeval" -> op_kpkeval args
      | "kpksolve" -> op_kpksolve ()
      | "pghash_alg" -> op_pghash_alg (rest_after line 1)
      | "book" -> op_book args
